@@ -103,6 +103,9 @@ def _check_all_dags(U, out, family, case, rec, key):
     want = set(tuple(g) for g in G.extensions(out))
     und = _gc.n_undirected(out)
     rec.case(family, case, bool(und >= 1 or len(want) != 1), key=key)
+    if (sum(out) + len(out)) % 5 == 3:
+        # history across routines: related routines asked about the same graph first, their results overwritten by the caller
+        _gc.scribble_related(U, gmat.to_np(out), rec, ("pdag_to_dag", "maximally_orient", "only_directed", "only_undirected", "skeleton"))
     try:
         res = U.all_dags(P)
         lst, got = _gc.result_set(res)
@@ -179,6 +182,8 @@ def _check_mec(U, out, family, case, rec, key, A=None, chain_variants=(True,)):
     rec.max("mec:max-class-size", len(want))
     if A is None:
         A = gmat.to_np(out)
+    if (sum(out) + len(out)) % 5 == 1 or chain_variants != (True,):
+        _gc.scribble_related(U, A, rec, ("dag_to_cpdag", "chain_graph_MEC", "chain_graph", "all_dags"))
     if chain_variants == (True,) and (sum(out) + len(out)) % 6 == 2:
         chain_variants = (True, False)      # check_chain=False must give the same class for every graph
         rec.count("keyword:check_chain=False")
